@@ -18,7 +18,7 @@ SHARDS = {'quick': 16, 'thorough': 64}
 TIMEOUT = {'quick': 1500, 'thorough': 7200}
 MUST_HIT = ['EarlierObject.rechecked', 'Mapping.whole-model', 'Mapping.component', 'Mapping.derived-attributes', 'Mapping.after-edit',
             'Mapping.simple', 'Mapping.linked', 'Mapping.subsuper', 'Mapping.reflexive', 'Schema.roundtrip',
-            'Mapping.real-model-edit', 'Mapping.unsupported-attribute-type', 'Mapping.identifier-of-derived-attribute', 'Mapping.identifier-mixing-plain-and-derived',
+            'Mapping.real-model-edit', 'Mapping.unsupported-attribute-type', 'Mapping.identifier-of-derived-attribute', 'Mapping.identifier-mixing-plain-and-derived', 'Mapping.phrase-at-one-end-only',
             'Mapping.subtypes-on-compound-identifier', 'Mapping.relationship-number-used-twice']
 MUST_REACH = ['bridgepoint/ooaofooa.py:mk_class', 'bridgepoint/ooaofooa.py:mk_simple_association',
               'bridgepoint/ooaofooa.py:mk_linked_association', 'bridgepoint/ooaofooa.py:mk_subsuper_association',
@@ -128,7 +128,15 @@ def random_diagram(rng, derived_keys=False, extras=False):
             m2, c2 = rng.randint(0, 1), rng.randint(0, 1)
             if (m1, c1) == (m2, c2):
                 m2 = 1 - m2
-            return (m1, c1, 'ph%da' % numb), (m2, c2, 'ph%db' % numb)
+            pa, pb = 'ph%da' % numb, 'ph%db' % numb
+            if rng.random() < 0.25:
+                # a phrase at one end only (a model in the making, or one whose author named one direction)
+                STATS['phrase-at-one-end-only'] = STATS.get('phrase-at-one-end-only', 0) + 1
+                if rng.random() < 0.5:
+                    pa = ''
+                else:
+                    pb = ''
+            return (m1, c1, pa), (m2, c2, pb)
         if kind == 'simple':
             form = pick()
             part = pick(form.where if form.where == 'comp' else None) if form is not None else None
